@@ -247,7 +247,7 @@ structure U3 (n c0 : Nat) (db : DB) : Prop where
   uc : UCdb n c0 db
   wc : WC n c0 db
 
-theorem foldl_P_mem {α β} (P : DB → Prop) (Q : α → Prop) (f : DB × β → α → DB × β)
+theorem foldl_PQ_mem {α β} (P : DB → Prop) (Q : α → Prop) (f : DB × β → α → DB × β)
     (hf : ∀ acc a, Q a → P acc.1 → P (f acc a).1) (l : List α) (hl : ∀ a ∈ l, Q a) (acc : DB × β) (h : P acc.1) :
     P (l.foldl f acc).1 := by
   induction l generalizing acc with
@@ -291,7 +291,7 @@ theorem fireExpireStep_u3 (n c0 : Nat) (hlt : c0 < 0xffff) (acc : DB × List Rep
 theorem sweepTimeout_u3 (n c0 : Nat) (db : DB) (c : Nat) (h : U3 n c0 db) : U3 n c0 (sweepTimeout db c).1 := by
   unfold sweepTimeout timeoutPass1
   refine foldl_P (U3 n c0) _ (fireTimeoutStep_u3 n c0) _ _ ?_
-  refine foldl_P_mem (U3 n c0) (fun w => w.cmd.key = n → w.cmd.count = c0) _ (fun acc a ha hp => timeoutStep_u3 n c0 acc a ha hp)
+  refine foldl_PQ_mem (U3 n c0) (fun w => w.cmd.key = n → w.cmd.count = c0) _ (fun acc a ha hp => timeoutStep_u3 n c0 acc a ha hp)
     _ ?_ _ h
   intro w hw
   unfold slotWaiters at hw
